@@ -151,6 +151,8 @@ abbrev Bank := Nat → Int
 
 structure State where
   fixed : Bool
+  /-- repo_patches/reward_register_withdraw_authorization.diff applied (not a C12 defect; kept separate) -/
+  codecFixed : Bool := false
   time : Nat
   bank : Bank
   promoters : List Promoter
@@ -731,10 +733,10 @@ def grantReward (s : State) (m : GrantMsg) : Except Err State :=
 
 /-- authz `MsgGrant` (transaction decoding, ValidateBasic, SaveGrant). `WithdrawCampaignAuthorization` is not
     registered in `RegisterInterfaces` (types/codec.go), so a `MsgGrant` carrying it cannot be decoded; with
-    `fixed` (repo_patches/reward_register_withdraw_authorization.diff) it is registered. -/
+    `codecFixed` (repo_patches/reward_register_withdraw_authorization.diff) it is registered. -/
 def authzGrant (s : State) (granter grantee kind : Nat) (limit : Option Int) (exp : Option Nat) : Except Err State :=
   if 2 < kind then .error .basic
-  else if kind = 2 ∧ !s.fixed then .error .codec
+  else if kind = 2 ∧ !s.codecFixed then .error .codec
   else if granter = grantee then .error .basic
   else if !authValid kind limit then .error .basic
   else if (match exp with | some e => decide (e ≤ s.time) | none => false) then .error .authzSave
